@@ -236,7 +236,7 @@ theorem no_panic_real (capacity : Nat) (poll : Bool) (tok : Nat → Nat → Nat)
     ∃ c, run (Cfg.real capacity poll true tok) (Cache.real capacity) ops = .ok c :=
   no_panic (cfg := Cfg.real capacity poll true tok) _ ops rfl (real_caps capacity)
 
-/-- The code AS IT IS panics (finding F4): on `f4History` the 33rd buffered message runs maintenance,
+/-- HISTORICAL (F4, fixed in /repo by e7e1055; the theorem uses `fix = false` explicitly): the code before the fix panics: on `f4History` the 33rd buffered message runs maintenance,
 which empties the probation region (`Removed(23)`) and then processes `Unpinned(2)` for a key of the
 pinned region: `Policy::unpin` unwraps the empty probation tail. -/
 theorem asis_unpin_panics :
